@@ -83,7 +83,7 @@ def runCase (s : St) : String :=
         if !s.fixed && fixedV.fail.isNone && !decide (o.ranges = n.ranges)
         then "override-span-in-padding"
         else if v.uncovered > 0 && v.uncoveredInToken == 0 && !decide (o.ranges = n.ranges) && rangesOrdered s.reported
-          && !s.reported.any (fun r => r.end_byte > s.len)
+          && !s.reported.any (fun r => r.end_byte > max s.len (max o.root.totalBytes n.root.totalBytes))
         then "padding-byte-after-range-change"
         else "other"
     let fixmsg := match v.fail, fixedV.fail with
